@@ -1,7 +1,7 @@
 (* PropC08.v — C08: damaged WAL bytes never surface as records that were not appended. Proved: (a) for ANY directory content, whatever open returns has strictly increasing positions per queue (representation invariant); (b) whatever decodes as an entry is exactly the serialization of that entry (nothing invented by the codec); (c) CRC-detected damage of any set of frames delivers a subsequence of the written entries. The general statement is false without the NoEmbedded hypothesis (known finding F4).
    Statements only; each theorem is closed by `exact <lemma>`; proofs live in the imported files. *)
 From Coq Require Import Lia NArith List.
-From MRL Require Import Bytes Params Names Frame Record Mem Spec Rolling Log Driver SpecRefine RecordProofs StreamProofs DamageProofs.
+From MRL Require Import Bytes Params Names Frame Record Mem Spec Rolling Log Driver SpecRefine RecordProofs StreamProofs DamageProofs OpenReplay DamageFile.
 
 (* any directory content: the returned queues satisfy the invariant (positions strictly increasing, payload offsets consistent) *)
 Theorem C08_positions_increasing_any_directory :
@@ -61,4 +61,46 @@ Theorem C08_replay_inserts_only_entry_records :
     end ++ recs.
 Proof. exact apply_append_all_or_nothing. Qed.
 Print Assumptions C08_replay_inserts_only_entry_records.
+
+(* through files, detected damage: what open replays is a sub-list of the entries that were written (ok_entries_sublist) *)
+Theorem C08_open_damaged_replays_only_written :
+    forall P : params,
+    7 < BS P ->
+    BS P <= 65542 ->
+    1 <= NB P ->
+    (forall (t : byte) (p : bytes), crcf P t p < 2 ^ 32) ->
+    forall (fs : fsT) (lo : N) (n : nat),
+    (forall f : N,
+    In f (GcProofs.iota lo (S n)) ->
+    exists b : bytes, fs_get fs (filename f) = Some (FFile b) /\ lenN b = FILE_BYTES P) ->
+    forall (base : N) (E_all : list entry) (pxs : list (bytes * list fspec)) (T' : bytes)
+    (z : N) (pol : policy) (hint : list bytes),
+    L_IO P = false ->
+    base <= lo ->
+    list_wal_numbers fs = GcProofs.iota lo (S n) ->
+    Forall wf_entry E_all ->
+    map fst pxs = map entry_ser E_all ->
+    encs_any P 0 pxs T' ->
+    FileStream.stream_of fs (GcProofs.iota lo (S n)) = dropN ((lo - base) * FILE_BYTES P) (T' ++ zerosN z) ->
+    lenN (T' ++ zerosN z) = (lo + N.of_nat n - base + 1) * FILE_BYTES P ->
+    let b := (lo - base) * FILE_BYTES P in
+    exists
+    (w0 : rwriter) (tags : list N) (E_pre E_suf : list entry) (pxs1 pxs2 : list (bytes * list fspec)),
+    E_all = E_pre ++ E_suf /\
+    pxs = pxs1 ++ pxs2 /\
+    map fst pxs1 = map entry_ser E_pre /\
+    map fst pxs2 = map entry_ser E_suf /\
+    map entry_ser E_pre = ResyncProofs.skipped_before P b 0 (map entry_ser E_all) /\
+    map entry_ser E_suf = ResyncProofs.delivered_from P b 0 (map entry_ser E_all) /\
+    lenN T' = lenN (ResyncProofs.encs_of P 0 (map entry_ser E_all)) /\
+    (let E_ok := ok_entries P pxs2 E_suf in
+    dmg_spec P fs lo n base w0 tags
+    (ok_sts P (ResyncProofs.cursor_after P 0 (map entry_ser E_pre)) pxs2)
+    (N.max b (lenN T')) /\
+    match GhostLog.replay_entries [] (combine tags E_ok) with
+    | Some qs => open P fs None pol hint = open_finish P w0 qs pol hint
+    | None => exists c : ioctx, open P fs None pol hint = OpenCorruption c
+    end).
+Proof. exact open_damaged. Qed.
+Print Assumptions C08_open_damaged_replays_only_written.
 
